@@ -307,6 +307,12 @@ class ExprMixin:
         st.heap[r] = vs
         return VRef(r)
 
+    def box_list_global(self, vs: VSeq) -> VRef:
+        """module-level constant list: lives in a negative heap slot shared by all states"""
+        ref = -(len(self._global_heap) + 1)
+        self._global_heap[ref] = vs
+        return VRef(ref)
+
     def ev_BoolOp(self, node, st):
         is_and = isinstance(node.op, ast.And)
         yield from self._boolop(node.values, is_and, st)
@@ -329,7 +335,17 @@ class ExprMixin:
                 outs = list(self._boolop(rest, is_and, s))
                 if len(outs) == 1 and not isinstance(outs[0][0], Exc):
                     rv, s2 = outs[0]
-                    yield (self.merge(tv, rv, v, s2) if is_and else self.merge(tv, v, rv, s2)), s2
+                    try:
+                        mv = self.merge(tv, rv, v, s2) if is_and else self.merge(tv, v, rv, s2)
+                    except Unsupported:
+                        if self.spec_mode:
+                            raise
+                        # values of different kinds (e.g. `n > 0 and some_list`): only the truth value
+                        # can be merged; that is all a condition needs
+                        tr = self.truthy(rv, s2)
+                        mv = V(BOOL, z3.And(tv, tr) if is_and else z3.Or(tv, tr))
+                        self.notes.append("mixed-kind boolean operator reduced to its truth value")
+                    yield mv, s2
                     continue
                 if self.spec_mode:
                     raise Unsupported("forking boolean operator in spec expression")
